@@ -49,6 +49,17 @@ func concPolicy(args []string, out *bufio.Writer) {
 				stMu.Unlock()
 			}
 		}
+		// one script in seven gets an executor that runs some tasks on the caller's goroutine and the others on their own
+		var mixN atomic.Int64
+		if i%7 == 3 && !stall {
+			o.Executor = func(fn func()) {
+				if mixN.Add(1)%3 == 0 {
+					fn()
+				} else {
+					go fn()
+				}
+			}
+		}
 		// two scripts in seven also expire: reads push the deadline out (ExpiryAccessing) while a ticker goroutine moves an
 		// atomic clock forward, so sweeps, reads that extend deadlines and writes race; the audit is the same (an entry that is
 		// in the table is known to the policies, none is tracked twice or dead)
